@@ -46,9 +46,38 @@ def extract(units):
     return {"structs": structs, "enums": enums, "functions": funcs}
 
 
-def write_snapshot(units):
+def write_snapshot(units, macros=None):
+    d = extract(units)
+    if macros is not None:
+        # object-like macros: name -> [file, position among the file's object-like macros, body text]
+        per = {}
+        for nm, (fl, line, body) in sorted(macros.items(), key=lambda kv: (kv[1][0], kv[1][1])):
+            per.setdefault(fl, []).append(nm)
+        d["macros"] = {nm: [fl, per[fl].index(nm), body] for nm, (fl, line, body) in macros.items()}
     with open(SCHEMA, "w") as f:
-        json.dump(extract(units), f, indent=1, sort_keys=True)
+        json.dump(d, f, indent=1, sort_keys=True)
+
+
+def macro_alias(name, defs):
+    """the current name of a macro the schema knows as `name` but the tree no longer defines: a macro unknown to the schema, in
+    the same file, with the same replacement text (nearest position when several qualify); None if there is none"""
+    try:
+        with open(SCHEMA) as f:
+            ref = json.load(f).get("macros", {})
+    except (OSError, ValueError):
+        return None
+    if name not in ref or name in defs:
+        return None
+    fl, pos, body = ref[name]
+    per = {}
+    for nm, (f2, line, b2) in sorted(defs.items(), key=lambda kv: (kv[1][0], kv[1][1])):
+        per.setdefault(f2, []).append(nm)
+    cands = [nm for nm, (f2, line, b2) in defs.items() if nm not in ref and b2.replace(" ", "") == body.replace(" ", "")]
+    same_file = [nm for nm in cands if defs[nm][0] == fl]
+    cands = same_file or cands
+    if not cands:
+        return None
+    return min(cands, key=lambda nm: abs(per[defs[nm][0]].index(nm) - pos))
 
 
 def normalise(units):
